@@ -14,7 +14,9 @@ use std::collections::{BTreeSet, HashSet};
 use std::sync::atomic::{AtomicUsize, Ordering};
 
 fn key_ok(k: &str) -> bool {
-    !k.is_empty() && k.chars().all(|c| c.is_ascii_alphabetic() || c == '_')
+    // the empty key is unambiguous too: it renders as an empty segment (`..k` / `.k` for query
+    // parameters), which no other path over this alphabet produces
+    k.chars().all(|c| c.is_ascii_alphabetic() || c == '_')
 }
 
 /// Keys restricted to characters that make the rendered path unambiguous;
@@ -23,9 +25,15 @@ fn unambiguous(d: &Doc) -> bool {
     match d {
         Doc::Str(s) => !s.contains('`'),
         Doc::Seq(v) => v.iter().all(unambiguous),
-        Doc::Obj(m) => m.iter().all(|(k, v)| key_ok(k) && unambiguous(v)),
+        Doc::Obj(m) => m.iter().all(|(k, v)| !k.contains('`') && unambiguous(v)),
         _ => true,
     }
+}
+
+/// The keys on the path of the report are what has to be unambiguous; member names inside a
+/// quoted offending value may be anything (they are JSON-escaped there).
+fn path_unambiguous(ev: &Event) -> bool {
+    ev.loc().map(|l| l.iter().all(|s| !matches!(s, Step::Key(k) if !key_ok(k)))).unwrap_or(true)
 }
 
 fn path_json(loc: &[Step]) -> String {
@@ -232,6 +240,17 @@ pub fn run_c14(e: &Engine) -> i32 {
                             continue;
                         }
                         let first = keep.events.iter().find(|ev| ev.report_id().is_some());
+                        if let Some(f) = first {
+                            // reports about a key quote it verbatim: such keys must be unambiguous too
+                            let quoted_ok = match f {
+                                Event::Report { kind: RKind::UnknownKey { key, .. }, .. } => key_ok(key),
+                                Event::Report { kind: RKind::MissingField { field }, .. } => key_ok(field),
+                                _ => true,
+                            };
+                            if !path_unambiguous(f) || !quoted_ok {
+                                continue;
+                            }
+                        }
                         states += 1;
                         for (query, run) in [(false, entry.run_json.unwrap()), (true, entry.run_query.unwrap())] {
                             let r = std::panic::catch_unwind(|| run(doc));
@@ -293,6 +312,7 @@ pub fn run_c14(e: &Engine) -> i32 {
             });
         }
     });
+    direct_sweep(&rec);
     let mut ks: Vec<String> = kinds_seen.into_inner().unwrap().into_iter().collect();
     ks.sort();
     rec.set_extra("error_kinds_seen_(error type:kind:depth)", json!(ks));
@@ -304,4 +324,152 @@ pub fn run_c14(e: &Engine) -> i32 {
             "exhaustive only within the stated alphabets and bounds",
         ],
     )
+}
+
+
+/// Hand-written `Deserr` impls may pass *any* accepted list, value and location to the error
+/// type: the built-in error types are called directly with every subset of kinds × a value of
+/// every kind × several locations (and the other error kinds with awkward names), and must
+/// render the report they were given.
+fn direct_sweep(rec: &Recorder) {
+    use deserr::{DeserializeError, ErrorKind, IntoValue, ValuePointerRef};
+    use std::ops::ControlFlow;
+    let values = [
+        Doc::Null,
+        Doc::Bool(false),
+        Doc::Int(3),
+        Doc::Neg(-3),
+        Doc::Float(2.5),
+        Doc::s("txt"),
+        Doc::Seq(vec![Doc::Int(1), Doc::s("q\"")]),
+        Doc::Obj(vec![("the \"best\"".into(), Doc::Int(1)), ("c:\\temp\t".into(), Doc::Null)]),
+    ];
+    let locs: Vec<Loc> = vec![vec![], vec![Step::Key("a".into())], vec![Step::Index(2), Step::Key("b".into()), Step::Index(0)]];
+    let mut n = 0u64;
+    let msg_of = |cf: ControlFlow<deserr::errors::JsonError, deserr::errors::JsonError>| match cf {
+        ControlFlow::Break(e) | ControlFlow::Continue(e) => e.to_string(),
+    };
+    let qmsg_of = |cf: ControlFlow<deserr::errors::QueryParamError, deserr::errors::QueryParamError>| match cf {
+        ControlFlow::Break(e) | ControlFlow::Continue(e) => e.to_string(),
+    };
+    for loc in &locs {
+        let mut check = |kind_json: &dyn Fn(ValuePointerRef) -> (String, String), ev: Event| {
+            n += 2;
+            with_loc(loc, &mut |l| {
+                let (j, q) = kind_json(l);
+                for (query, got) in [(false, j), (true, q)] {
+                    let want = expected_message(&ev, query);
+                    if got != want {
+                        rec.violation(Violation {
+                            property: "C14".into(),
+                            subject: format!("direct call, {}", if query { "QueryParamError" } else { "JsonError" }),
+                            message: format!("message is\n    {got:?}\n  but the report {ev:?} is described by\n    {want:?}"),
+                            replay: json!({"kind": "c14-direct", "event": format!("{ev:?}")}),
+                        });
+                    }
+                }
+            });
+        };
+        for mask in 0u32..256 {
+            let kinds: Vec<Kind> = (0..8).filter(|i| mask & (1 << i) != 0).map(|i| Kind::ALL[i]).collect();
+            let accepted: Vec<deserr::ValueKind> = kinds.iter().map(|k| k.to_deserr()).collect();
+            for v in &values {
+                let ev = Event::Report {
+                    id: 1,
+                    on: 0,
+                    kind: RKind::IncorrectValueKind { actual: v.clone(), accepted: kinds.clone() },
+                    loc: loc.clone(),
+                    self_ids: vec![],
+                    brk: true,
+                    answer_ignored: false,
+                };
+                check(
+                    &|l| {
+                        (
+                            msg_of(deserr::errors::JsonError::error::<Doc>(None, ErrorKind::IncorrectValueKind { actual: v.clone().into_value(), accepted: &accepted }, l)),
+                            qmsg_of(deserr::errors::QueryParamError::error::<Doc>(None, ErrorKind::IncorrectValueKind { actual: v.clone().into_value(), accepted: &accepted }, l)),
+                        )
+                    },
+                    ev,
+                );
+            }
+        }
+        let names = ["kind", "fooo", "fo", "日本語の鍵", ""];
+        let lists: Vec<Vec<&str>> = vec![vec![], vec!["foo"], vec!["fooa", "foob", "foo"], vec!["a", "b", "c", "d", "e", "f", "g"]];
+        for name in names {
+            let ev = Event::Report { id: 1, on: 0, kind: RKind::MissingField { field: name.into() }, loc: loc.clone(), self_ids: vec![], brk: true, answer_ignored: false };
+            check(
+                &|l| {
+                    (
+                        msg_of(deserr::errors::JsonError::error::<Doc>(None, ErrorKind::MissingField { field: name }, l)),
+                        qmsg_of(deserr::errors::QueryParamError::error::<Doc>(None, ErrorKind::MissingField { field: name }, l)),
+                    )
+                },
+                ev,
+            );
+            for list in &lists {
+                let acc: Vec<String> = list.iter().map(|s| s.to_string()).collect();
+                let ev = Event::Report { id: 1, on: 0, kind: RKind::UnknownKey { key: name.into(), accepted: acc.clone() }, loc: loc.clone(), self_ids: vec![], brk: true, answer_ignored: false };
+                check(
+                    &|l| {
+                        (
+                            msg_of(deserr::errors::JsonError::error::<Doc>(None, ErrorKind::UnknownKey { key: name, accepted: list }, l)),
+                            qmsg_of(deserr::errors::QueryParamError::error::<Doc>(None, ErrorKind::UnknownKey { key: name, accepted: list }, l)),
+                        )
+                    },
+                    ev,
+                );
+                let ev = Event::Report { id: 1, on: 0, kind: RKind::UnknownValue { value: name.into(), accepted: acc }, loc: loc.clone(), self_ids: vec![], brk: true, answer_ignored: false };
+                check(
+                    &|l| {
+                        (
+                            msg_of(deserr::errors::JsonError::error::<Doc>(None, ErrorKind::UnknownValue { value: name, accepted: list }, l)),
+                            qmsg_of(deserr::errors::QueryParamError::error::<Doc>(None, ErrorKind::UnknownValue { value: name, accepted: list }, l)),
+                        )
+                    },
+                    ev,
+                );
+            }
+        }
+        for seq in [vec![], vec![Doc::Int(1)], vec![Doc::Obj(vec![("q\"".into(), Doc::Null)]), Doc::s("x")]] {
+            for expected in [0usize, 2, 3] {
+                let ev = Event::Report { id: 1, on: 0, kind: RKind::BadSequenceLen { actual: Doc::Seq(seq.clone()), expected }, loc: loc.clone(), self_ids: vec![], brk: true, answer_ignored: false };
+                check(
+                    &|l| {
+                        (
+                            msg_of(deserr::errors::JsonError::error::<Doc>(None, ErrorKind::BadSequenceLen { actual: seq.clone(), expected }, l)),
+                            qmsg_of(deserr::errors::QueryParamError::error::<Doc>(None, ErrorKind::BadSequenceLen { actual: seq.clone(), expected }, l)),
+                        )
+                    },
+                    ev,
+                );
+            }
+        }
+        for m in ["", "plain", "ends with space ", "multi\nline"] {
+            let ev = Event::Report { id: 1, on: 0, kind: RKind::Unexpected { msg: m.into() }, loc: loc.clone(), self_ids: vec![], brk: true, answer_ignored: false };
+            check(
+                &|l| {
+                    (
+                        msg_of(deserr::errors::JsonError::error::<Doc>(None, ErrorKind::Unexpected { msg: m.to_string() }, l)),
+                        qmsg_of(deserr::errors::QueryParamError::error::<Doc>(None, ErrorKind::Unexpected { msg: m.to_string() }, l)),
+                    )
+                },
+                ev,
+            );
+        }
+    }
+    rec.add_counts(n / 2, n, n);
+    rec.set_extra("direct_error_type_calls", json!(n));
+}
+
+/// Builds a real `ValuePointerRef` for `loc` and calls `f` with it.
+fn with_loc(loc: &[Step], f: &mut dyn FnMut(deserr::ValuePointerRef)) {
+    fn go(cur: deserr::ValuePointerRef, rest: &[Step], f: &mut dyn FnMut(deserr::ValuePointerRef)) {
+        match rest.split_first() {
+            None => f(cur),
+            Some((Step::Key(k), r)) => go(cur.push_key(k), r, f),
+            Some((Step::Index(i), r)) => go(cur.push_index(*i), r, f),
+        }
+    }
+    go(deserr::ValuePointerRef::Origin, loc, f)
 }
